@@ -71,6 +71,39 @@ def run(chk):
         if not seen:
             chk.fail_closed(rid, "Op::resolve_constant: no arithmetic call found")
 
+    rid = "R12g"
+    chk.rule(rid, "Target::insert_type_def records the assigned constant only under path.is_root()", floor=2)
+    ITD = "compiler::expression::assignment::Target::insert_type_def"
+    tb = chk.anchor(ITD, rid)
+    if tb is not None:
+        roots = [(bb, cfgq.bool_switch_after_call(tb, bb)) for bb, t in tb.calls() if tb.callee(t).endswith("::is_root")]
+        true_targets = [e[0] for bb, e in roots if e]
+        n = 0
+        for bi, si, s in cfgq.agg_sites(tb, "compiler::type_def::Details"):
+            for nme, op in zip(s["rv"].get("fnames", []), s["rv"]["ops"]):
+                if nme != "value":
+                    continue
+                n += 1
+                v = op_local(op)
+                bad = None
+                chain = cfgq.ref_chain(tb, v) if v is not None else []
+                if 4 in chain or v == 4:
+                    bad = "the constant parameter is stored unconditionally"
+                else:
+                    for kind, dbb, dsi, dx in tb.defs().get(v, []) if v is not None else []:
+                        if kind == "stmt" and dx["rv"]["k"] == "use":
+                            src = op_local(dx["rv"]["op"])
+                            if src is not None and 4 in cfgq.ref_chain(tb, src):
+                                if not any(tb.dominates(tt, dbb) for tt in true_targets):
+                                    bad = "the constant parameter is stored on a path not guarded by is_root()"
+                d = {"fn": ITD, "at": "%s:%s" % (tb.file, s.get("ln")), "is_root_tests": len(roots), "problem": bad}
+                chk.instance(rid, d, ok=not bad)
+                if bad:
+                    chk.violation(rid, tb.file, ITD, "constant recorded for a path assignment",
+                                  "insert_type_def: %s — after `x.a = 2` the compiler believes the whole of x is the constant 2" % bad, detail=d, loc=d["at"])
+        if n == 0:
+            chk.fail_closed(rid, "insert_type_def: no Details{..} construction found")
+
     rid = "R12f"
     chk.rule(rid, "Op::type_info looks up the right operand's constant in the state that already absorbed the left operand's effects", floor=2)
     OP_TI = "<compiler::expression::op::Op as compiler::expression::Expression>::type_info"
